@@ -126,5 +126,47 @@ def run(ctx):
             else:
                 shapes.append("other")
         run.inst("C11.B3", "normalize-elementwise", shapes and all(s in ("identity", "map+collect") for s in shapes), "normalize_longitudes returns %s of its input" % shapes, where(facts.fns[NORM]["span"]))
+    # B4: the unwrapping reference is a longitude on every path (centre longitude, or the first point's longitude near a pole)
+    if NORM in facts.fns:
+        fn = fn_terms(facts, NORM)
+        refs = []
+        for p_, f_ in facts.fns.items():
+            if not p_.startswith(NORM) or f_["kind"] not in ("Fn", "Closure"):
+                continue
+            fx = fn_terms(facts, p_)
+            for b in sorted(fx.cfg.reach):
+                t = fx.blocks[b]["term"]
+                if t["k"] != "switch":
+                    continue
+                d = fx.switch_term(b)
+                if d[0] == "bin" and d[1] in ("Gt", "Lt", "Ge", "Le") and d[2][0] == "bin" and d[2][1] == "Sub":
+                    from ..terms import const_float
+                    c_ = const_float(d[3])
+                    if c_ is not None and abs(abs(c_) - 180.0) < 1e-9:
+                        refs.append((fx, d[2][3]))
+        def leaf_calls(fx, t, seen):
+            out = []
+            for x in walk(t):
+                if x[0] == "call" and isinstance(x[1], str) and (x[1].endswith("::longitude") or x[1].endswith("::latitude")):
+                    out.append(x[1].split("::")[-1])
+                if x[0] == "phi" and x not in seen and x[1] == fx.path:
+                    seen.add(x)
+                    for o in fx.phi_operands(x).values():
+                        out += leaf_calls(fx, o, seen)
+                if x[0] == "deref" and x[1][0] == "field" and x[1][1][0] == "deref" and x[1][1][1] == ("param", 1):
+                    # captured variable of the closure: resolve in the parent through the closure aggregate
+                    idx = x[1][2]
+                    for c in fn.calls():
+                        for a in c.args:
+                            for y in walk(a):
+                                if y[0] == "agg" and y[1] == "closure" and y[2] == fx.path and isinstance(idx, int) and idx < len(y[3]):
+                                    cap = y[3][idx]
+                                    out += leaf_calls(fn, cap, seen)
+            return out
+        kinds = []
+        for fx, rt in refs:
+            kinds += leaf_calls(fx, rt, set())
+        run.inst("C11.B4", "unwrap-reference-is-longitude", bool(refs) and bool(kinds) and all(k == "longitude" for k in kinds),
+                 "the reference the ring is unwrapped around derives from %s on its %d path(s) (must be longitudes only)" % (sorted(set(kinds)), len(kinds)), where(facts.fns[NORM]["span"]))
     run.inst("C11.B1", "world-cell-empty", len(empties) <= 1, "the only other Ok result is the empty ring of the world cell", w, nontrivial=False)
     run.floor("C11", "rule instances", len(run.instances), 10)
